@@ -30,9 +30,9 @@ fn nontrivial(sim: &Sim<SMVReg>) -> bool {
 pub fn property() -> Property {
     let mut jobs: Vec<Box<dyn JobT>> = Vec::new();
     let variants: Vec<(&str, Disc, Weights, u64, u64)> = vec![
-        ("MVReg/any-order/ops+dups", Disc::Any, Weights::ops_only().with_redeliver(12), 20000, 200_000),
-        ("MVReg/any-order/ops+merges+stale", Disc::Any, Weights::mixed(), 20000, 200_000),
-        ("MVReg/causal/ops", Disc::Causal, Weights::ops_only(), 8000, 60_000),
+        ("MVReg/any-order/ops+dups", Disc::Any, Weights::ops_only().with_redeliver(12), 60000, 200_000),
+        ("MVReg/any-order/ops+merges+stale", Disc::Any, Weights::mixed(), 60000, 200_000),
+        ("MVReg/causal/ops", Disc::Causal, Weights::ops_only(), 24000, 60_000),
     ];
     for (label, disc, w, q, t) in variants {
         let pc = PlanCfg::new(w).steps(4, 28);
